@@ -17,6 +17,7 @@ RULE = (
     "node ENTER every dependency that takes part has EXITed earlier, the arguments observed inside the node equal "
     "the reference evaluation's, the returned tuple equals the reference. non-trivial = some node has >= 2 "
     "dependencies of >= 2 kinds and >= 2 nodes were inside their functions at the same time; distinct by case JSON."
+    " Round 8-10 additions: calls with 10-24 positional arguments repeating their dependencies; node functions that are functools.partial objects / bound methods; shared __name__."
 )
 ASSUMPTIONS = [
     "node functions are the harness's constructors (value = digest of function, site, received arguments)",
